@@ -123,6 +123,8 @@ def run(ctx):
     for pre in ("align_", "nl_", "sp_"):
         xcfgs.append("".join("%s=%s\n" % (o["name"], {"bool": "true", "unum": "3", "iarf": "force", "num": "3"}[o["kind"]]) for o in reg
                              if o["name"].startswith(pre) and o["kind"] in ("bool", "unum", "iarf", "num") and "thresh" not in o["name"]))
+    # ... and one that inserts a file it names relative to itself
+    xcfgs.append("cmt_insert_file_header=aux_hdr.txt\ncmt_insert_func_header=aux_hdr.txt\nindent_columns=3\n")
     single = [inv for inv in invs if len(inv["files"]) == 1]
     nx = 0
     for k, ctext in enumerate(xcfgs):
@@ -130,6 +132,8 @@ def run(ctx):
         os.makedirs(rk, exist_ok=True)
         ck = os.path.join(rk, "x.cfg")
         open(ck, "w").write(ctext)
+        if "aux_hdr.txt" in ctext:
+            open(os.path.join(rk, "aux_hdr.txt"), "w").write("/* project header */\n")
         xpool = []
         for lang, text in sorted(hazard.DENSE.items()):
             name = "d%d%s" % (k, hazard.EXT[lang])
